@@ -170,3 +170,47 @@ def exitRuntime : Nat := 70
 def maxParams : Nat := 255
 
 end Borno.Expect
+
+namespace Borno.Expect
+
+/-! ## expectations about code shape (compared with the regenerated facts in `Tie.lean`) -/
+
+/-- the `scanToken` cases that are not plain operator cases, as normalised source text -/
+def otherCases : List (String × String) := [
+  ("47", "{ if s.match('/') { for s.peek() != '\\n' && !s.isAtEnd() { s.advance() } } else if s.match('*') { s.multilineComment() } else { s.addToken(token.SLASH) } }"),
+  ("10", "{ s.line++ }"),
+  ("34", "{ s.stringLiteral() }"),
+  ("default", "{ if isDigit(c) { s.number() } else if isAlpha(c) { s.identifier() } else { utils.GlobalError(s.line, \"Unexpected character.\") } }")]
+
+def isAlphaBody : String := "{ return unicode.IsLetter(r) || unicode.IsMark(r) || r == '_' }"
+def isAlphaNumericBody : String := "{ return isAlpha(c) || isDigit(c) }"
+
+def logicalNode : String := "ast.Logical{Left: expr, Operator: operator, Right: right}"
+def binaryNode : String := "ast.Binary{Left: expr, Operator: operator, Right: right, Line: operator.Line}"
+
+/-- what `factgen` must find for the ladder: (function, operand callee, loop kind, operator
+    token types, right-operand callee, node built) -/
+def ladderFacts : List (String × String × String × List String × String × String) :=
+  let names := ladder.map (·.name) ++ ["unary"]
+  (ladder.zip (names.drop 1)).map fun (l, next) =>
+    (l.name, next, "for", l.ops.map TT.name, next,
+      match l.node with
+      | .logical => logicalNode
+      | .binary => binaryNode)
+
+/-- documented ladder (`grammer.txt`, বাংলা section): operator sets per level, top to bottom -/
+def docOps : List (List String) := ladder.map fun l => l.ops.map TT.name
+
+/-- README "Core Grammar" shows a shortened ladder: these levels, in this order -/
+def readmeLevels : List String := ["logicalOR", "logicalAnd", "equality", "comparison", "term", "factor", "power"]
+
+def exits : List (String × String) :=
+  [("main", toString exitUsage), ("main", toString exitUsage), ("runFile", toString exitRead),
+   ("runFile", toString exitSyntax), ("runFile", toString exitRuntime)]
+
+def maxParamsTest : String := ">= 255"
+
+def arityText : Int → String
+  | 0 => "0" | 1 => "1" | 2 => "2" | _ => "-1"
+
+end Borno.Expect
